@@ -19,7 +19,8 @@ EXPECT_ENTERED = ['SmtpSession.HAVE_DATA', 'WsgiEdge._enqueue_envelope',
                   'Server._get_message_data']
 BOUNDS = {
     'quick': 'policy chains (none / domain split / recipient split / domain '
-             'split then recipient split) over 3 recipients in 2 domains '
+             'split then recipient split / recipient split then a user policy '
+             'returning an empty list or exhausted generator) over 3 recipients in 2 domains '
              '(1..3 envelopes); the k-th storage write fails (every k, or '
              'none) with a QueueError carrying a reply with symbolic code '
              '(4xx/5xx), a QueueError without reply, or another exception; '
@@ -42,7 +43,10 @@ MAX_WITNESSES = 10
 
 RCPTS = ['a@x.com', 'b@y.com', 'c@X.com', 'd@z.org']
 CHAINS = {'none': [], 'domain': ['domain'], 'rcpt': ['rcpt'],
-          'domain+rcpt': ['domain', 'rcpt']}
+          'domain+rcpt': ['domain', 'rcpt'],
+          # a user policy that answers with an EMPTY list / an exhausted
+          # generator ("nothing to replace"): the envelope is kept
+          'rcpt+empty': ['rcpt', 'empty']}
 
 
 def cells(tier):
@@ -143,7 +147,18 @@ def build_queue(cell, store):
     if cell.get('pool'):
         kw['store_pool'] = 1
     queue = Queue(store, None, **kw)
+    from slimta.policy import QueuePolicy
+
+    class EmptyPolicy(QueuePolicy):
+        def __init__(self, gen):
+            self.gen = gen
+
+        def apply(self, envelope):
+            return iter(()) if self.gen else []
     for p in CHAINS[cell['chain']]:
+        if p == 'empty':
+            queue.add_policy(EmptyPolicy(api.choice('empty_is_generator', 2)))
+            continue
         queue.add_policy(RecipientDomainSplit() if p == 'domain'
                          else RecipientSplit())
     return queue
@@ -155,7 +170,9 @@ def expected_envelopes(chain, rcpts):
     for p in CHAINS[chain]:
         new = []
         for g in groups:
-            if p == 'rcpt':
+            if p == 'empty':
+                new.append(g)
+            elif p == 'rcpt':
                 new.extend([[r] for r in g] if len(g) > 1 else [g])
             else:
                 doms = {}
